@@ -13,6 +13,8 @@ pub const EK_SLICE: usize = 0;
 pub const EK_VEC: usize = 1;
 pub const EBUF: usize = 64;
 
+fn guard(d: &[u8], cap: usize) { check(d[cap] == 0 && d[cap + 1] == 0 && d[cap + 2] == 0 && d[cap + 3] == 0, 112); }
+
 /// a short text in both source forms, with character boundaries
 pub struct Text {
     pub b8: [u8; 40], pub n8: usize,
@@ -42,17 +44,23 @@ pub fn epush8_noreplace(enc_: &mut Encoder, kind: usize, src: &str, last: bool, 
     loop {
         let cap = run.cap();
         let rest = &src[pos..];
-        let mut d = [0u8; EBUF];
+        let mut d = [0u8; EBUF + 4];
+        super::drv::prefill8(run, &mut d, cap);
         let (res, read, written) = if kind == EK_SLICE {
             enc_.encode_from_utf8_without_replacement(rest, &mut d[..cap], last)
         } else {
-            let mut v: alloc::vec::Vec<u8> = alloc::vec::Vec::with_capacity(cap);
+            let k = if run.keep_prefix { 2 } else { 0 };
+            let mut v: alloc::vec::Vec<u8> = alloc::vec::Vec::with_capacity(cap + k);
+            if run.keep_prefix { v.push(0xC3); v.push(0xA4); }
             let (r, rd) = enc_.encode_from_utf8_to_vec_without_replacement(rest, &mut v, last);
-            check(v.capacity() == cap, 111);
-            let w = v.len();
-            let mut i = 0; while i < w { d[i] = v[i]; i += 1; }
+            check(v.capacity() == cap + k, 111);
+            if run.keep_prefix { check(v[0] == 0xC3 && v[1] == 0xA4, 115); }
+            let w = v.len() - k;
+            let mut i = 0; while i < cap { d[i] = 0; i += 1; }
+            i = 0; while i < w { d[i] = v[k + i]; i += 1; }
             (r, rd, w)
         };
+        guard(&d, cap);
         run.calls += 1;
         check(read <= rest.len(), 100);
         check(written <= cap, 101);
@@ -75,8 +83,10 @@ pub fn epush16_noreplace(enc_: &mut Encoder, kind: usize, src: &[u16], last: boo
     loop {
         let cap = run.cap();
         let rest = &src[pos..];
-        let mut d = [0u8; EBUF];
+        let mut d = [0u8; EBUF + 4];
+        super::drv::prefill8(run, &mut d, cap);
         let (res, read, written) = enc_.encode_from_utf16_without_replacement(rest, &mut d[..cap], last);
+        guard(&d, cap);
         run.calls += 1;
         check(read <= rest.len(), 100);
         check(written <= cap, 101);
@@ -98,17 +108,23 @@ pub fn epush8_replace(enc_: &mut Encoder, kind: usize, src: &str, last: bool, ru
     loop {
         let cap = run.cap();
         let rest = &src[pos..];
-        let mut d = [0u8; EBUF];
+        let mut d = [0u8; EBUF + 4];
+        super::drv::prefill8(run, &mut d, cap);
         let (res, read, written, had) = if kind == EK_SLICE {
             enc_.encode_from_utf8(rest, &mut d[..cap], last)
         } else {
-            let mut v: alloc::vec::Vec<u8> = alloc::vec::Vec::with_capacity(cap);
+            let k = if run.keep_prefix { 2 } else { 0 };
+            let mut v: alloc::vec::Vec<u8> = alloc::vec::Vec::with_capacity(cap + k);
+            if run.keep_prefix { v.push(0xC3); v.push(0xA4); }
             let (r, rd, h) = enc_.encode_from_utf8_to_vec(rest, &mut v, last);
-            check(v.capacity() == cap, 111);
-            let w = v.len();
-            let mut i = 0; while i < w { d[i] = v[i]; i += 1; }
+            check(v.capacity() == cap + k, 111);
+            if run.keep_prefix { check(v[0] == 0xC3 && v[1] == 0xA4, 115); }
+            let w = v.len() - k;
+            let mut i = 0; while i < cap { d[i] = 0; i += 1; }
+            i = 0; while i < w { d[i] = v[k + i]; i += 1; }
             (r, rd, w, h)
         };
+        guard(&d, cap);
         run.calls += 1;
         check(read <= rest.len(), 100);
         check(written <= cap, 101);
@@ -131,8 +147,10 @@ pub fn epush16_replace(enc_: &mut Encoder, kind: usize, src: &[u16], last: bool,
     loop {
         let cap = run.cap();
         let rest = &src[pos..];
-        let mut d = [0u8; EBUF];
+        let mut d = [0u8; EBUF + 4];
+        super::drv::prefill8(run, &mut d, cap);
         let (res, read, written, had) = enc_.encode_from_utf16(rest, &mut d[..cap], last);
+        guard(&d, cap);
         run.calls += 1;
         check(read <= rest.len(), 100);
         check(written <= cap, 101);
